@@ -723,5 +723,103 @@ theorem posTorch_centre (up j : ℕ) : posTorch (centerTorch up (0 : ℝ)) j = (
 theorem finalTorch_centre (up : ℕ) : finalTorch up (0 : ℝ) (gShift up) 0 = 0 := by
   simp [finalTorch]
 
+/-! ### identical images: the whole NumPy pipeline, with an arbitrary search table -/
+
+theorem uniquePeak_uniqueMax {M N : ℕ} (hM : 0 < M) (hN : 0 < N) (x : ℕ → ℕ → ℝ) (hx : UniquePeak M N x) :
+    UniqueMaxAt M N (corrTable M N x x) 0 0 := by
+  have h := corrTable_roll_uniqueMax hM hN x hx 0 0
+  rw [corrTable_roll_zero hM hN] at h
+  simpa [wrap_zero] using h
+
+theorem freq_zero {M : ℕ} (hM : 0 < M) : freq M 0 = 0 := by
+  unfold freq
+  rw [Nat.zero_add, Nat.mod_eq_of_lt (Nat.div_lt_self hM (by norm_num))]
+  simp
+
+/-- the `max_shift` mask keeps a positive unique maximum at zero lag -/
+theorem masked_uniqueMax_zero {M N : ℕ} (hM : 0 < M) (hN : 0 < N) (c : ℕ → ℕ → ℝ) (ms : Option ℝ)
+    (hms : ∀ m, ms = some m → 0 < m) (hc : UniqueMaxAt M N c 0 0) (hpos : 0 < c 0 0) :
+    UniqueMaxAt M N (masked M N ms c) 0 0 := by
+  cases ms with
+  | none =>
+    have : masked M N none c = c := by funext s t; simp [masked]
+    rw [this]; exact hc
+  | some m =>
+    have hm := hms m rfl
+    obtain ⟨h0, h0', hmax⟩ := hc
+    have hz : masked M N (some m) c 0 0 = c 0 0 := by
+      simp only [masked, freq_zero hM, freq_zero hN]
+      have : (0 : ℝ) < m * m := mul_pos hm hm
+      simp [this]
+    refine ⟨h0, h0', ?_⟩
+    intro s t hs ht hne
+    rw [hz]
+    simp only [masked]
+    split
+    · exact hmax s t hs ht hne
+    · simpa using hpos
+
+theorem coarseNp_identical {M N : ℕ} (hM : 0 < M) (hN : 0 < N) (x : ℕ → ℕ → ℝ)
+    (cs : ℕ → ℕ → ℝ) (hcs : UniqueMaxAt M N cs 0 0) :
+    (coarseNp M N cs (corrTable M N x x)).x = 0 ∧ (coarseNp M N cs (corrTable M N x x)).y = 0 := by
+  have hpk := argmax2_unique hcs
+  have hrow := corrTable_roll_row_symm hM hN x 0 0
+  have hcol := corrTable_roll_col_symm hM hN x 0 0
+  rw [corrTable_roll_zero hM hN] at hrow hcol
+  simp only [neg_zero, wrap_zero] at hrow hcol
+  constructor
+  · simp only [coarseNp, hpk]
+    rw [hrow, parabolic_symm]
+    simp only [NumReal.ofNat_eq, NumReal.add_eq, add_zero, Nat.cast_zero]
+    exact pmod_of_mem (le_refl _) (by positivity)
+  · simp only [coarseNp, hpk]
+    rw [hcol, parabolic_symm]
+    simp only [NumReal.ofNat_eq, NumReal.add_eq, add_zero, Nat.cast_zero]
+    exact pmod_of_mem (le_refl _) (by positivity)
+
+theorem shiftNp1_identical {M N : ℕ} (hM : 0 < M) (hN : 0 < N) (x : ℕ → ℕ → ℝ)
+    (cs : ℕ → ℕ → ℝ) (hcs : UniqueMaxAt M N cs 0 0) :
+    shiftNp1 M N cs (corrTable M N x x) = (0, 0) := by
+  have h := coarseNp_identical hM hN x cs hcs
+  unfold shiftNp1
+  simp only [h.1, h.2, centre_zero hM, centre_zero hN]
+
+/-- the two neighbours the sub-pixel parabola reads around the centre of the patch are equal -/
+theorem patchNp_identical_sym (M N up : ℕ) (hup : 1 ≤ up) (G : ℕ → ℕ → Cx ℝ) :
+    patchNp M N up (ccF G G) 0 0 (du up - 1) (du up) = patchNp M N up (ccF G G) 0 0 (du up + 1) (du up) ∧
+    patchNp M N up (ccF G G) 0 0 (du up) (du up - 1) = patchNp M N up (ccF G G) 0 0 (du up) (du up + 1) := by
+  have hF := ccF_self_im G
+  have hc : posNp up (0 : ℝ) (du up) = 0 := by rw [posNp_zero]; simp
+  have h1 : posNp up (0 : ℝ) (du up - 1) = -posNp up (0 : ℝ) (du up + 1) := by
+    rw [posNp_zero, posNp_zero]
+    have : 1 ≤ du up := by have := du_pos hup; omega
+    push_cast [Nat.cast_sub this]; ring
+  constructor
+  · show patchAt M N up 1 (ccF G G) _ _ = patchAt M N up 1 (ccF G G) _ _
+    rw [hc, h1, patchAt_row_even _ _ _ _ _ hF]
+  · show patchAt M N up 1 (ccF G G) _ _ = patchAt M N up 1 (ccF G G) _ _
+    rw [hc, h1, patchAt_col_even _ _ _ _ _ hF]
+
+theorem upsampledNpOf_identical (M N up : ℕ) (hup : 1 ≤ up) (G : ℕ → ℕ → Cx ℝ)
+    (hstrict : UniqueMaxAt (sideNp up) (sideNp up) (patchNp M N up (ccF G G) 0 0) (du up) (du up)) :
+    upsampledNpOf up 0 0 (patchNp M N up (ccF G G) 0 0) = (0, 0) := by
+  obtain ⟨hsym1, hsym2⟩ := patchNp_identical_sym M N up hup G
+  have hdu := du_pos hup
+  unfold upsampledNpOf
+  simp only [argmax2_unique hstrict]
+  have hcond : 1 ≤ du up ∧ du up + 2 ≤ sideNp up ∧ 1 ≤ du up ∧ du up + 2 ≤ sideNp up := by
+    unfold sideNp; omega
+  simp only [patchRefine, hcond, and_self, if_true]
+  rw [hsym1, hsym2, parabolic_symm, parabolic_symm, finalNp_centre]
+
+theorem shiftNpUp_identical {M N : ℕ} (hM : 0 < M) (hN : 0 < N) (x : ℕ → ℕ → ℝ)
+    (cs : ℕ → ℕ → ℝ) (hcs : UniqueMaxAt M N cs 0 0) (up : ℕ) (hup : 1 ≤ up) (G : ℕ → ℕ → Cx ℝ)
+    (hstrict : UniqueMaxAt (sideNp up) (sideNp up) (patchNp M N up (ccF G G) 0 0) (du up) (du up)) :
+    shiftNpUp M N up cs (corrTable M N x x) (ccF G G) = (0, 0) := by
+  have h := coarseNp_identical hM hN x cs hcs
+  unfold shiftNpUp
+  simp only [h.1, h.2]
+  rw [upsampledNpOf_identical M N up hup G hstrict, centre_zero hM, centre_zero hN]
+
 end Registration
 end QuantemModel
